@@ -17,6 +17,7 @@ MIX_W = (3, 5, 7)
 MIX_M = (1000, 20000, 400000)
 
 SUBGRAPHS = ("SgArith", "SgAccum", "SgSrc", "SgTimer", "SgPass", "SgFb", "SgOwn", "SgSched", "SgSchedV", "SgDeep", "SgFail")
+# SgCtx (imports a context port) is only generated where a `ctxscope` statement precedes it (C06)
 
 
 def norm(v):
@@ -141,6 +142,12 @@ def expand_subgraph(n):
     if g == "SgDeep":
         inner = dict(name=nm, kind="nested", g="SgTimer", args=[nm + ".a"], p=p, q=q, id=i * 10 + 2)
         return [dict(name=nm + ".a", kind="c1", args=[x], valid="V", op=0, id=i * 10 + 1)] + expand_subgraph(inner)
+    if g == "SgCtx":
+        # args = [x, <the ctxscope pseudo-node>]: c1 over the declared input and c1 with the *same scalars* over the context port
+        cx = n["args"][1]
+        return [dict(name=nm + ".a", kind="c1", args=[x], valid="V", op=0, id=i * 10 + 1),
+                dict(name=nm + ".b", kind="c1", args=[cx], valid="V", op=0, id=i * 10 + 1),
+                dict(name=nm, kind="c2", args=[nm + ".a", nm + ".b"], valid="VV", op=p % 3, id=i * 10 + 2)]
     if g == "SgFail":
         return [dict(name=nm + ".a", kind="c1", args=[x], valid="V", op=0, id=i * 10 + 1),
                 dict(name=nm + ".b", kind="accum", args=[nm + ".a"], id=i * 10 + 2),
@@ -164,6 +171,8 @@ def expand(prog):
                 e["try_group"] = n["name"]
                 e["try_eid"] = n.get("eid", 0)
                 nodes.append(e)
+        elif n["kind"] == "ctxscope":
+            nodes.append(dict(name=n["name"], kind="alias", args=[n["args"][0]], id=0))     # no runtime node: names its port
         else:
             nodes.append(n)
     return nodes, binds
@@ -628,7 +637,7 @@ def shrink_program(prog):
             yield q
     # 3. replace a node by an alias of its first input (keeps consumers alive)
     for n in nodes:
-        if n.get("args") and n["kind"] not in ("alias", "ite") and n["kind"] != "feedback":
+        if n.get("args") and n["kind"] not in ("alias", "ite", "ctxscope") and n["kind"] != "feedback":
             q = copy.deepcopy(prog)
             for m in q["nodes"]:
                 m["args"] = [(("~" if a.startswith("~") else "") + n["args"][0].lstrip("~")) if a.lstrip("~") == n["name"] else a for a in m.get("args", [])]
